@@ -74,6 +74,19 @@ pub fn run(ctx: &mut Ctx) {
                 if n <= 4 {
                     via_binary(ctx, &f, &EncOpts::v(3), "canonical");
                     via_binary(ctx, &f, &EncOpts::v(1), "canonical");
+                    // the obsolete flag / a replacement on any term must not change the classification
+                    for k in 0..n {
+                        if f.terms[k].id == 1 || f.terms[k].id == 118 {
+                            continue;
+                        }
+                        let mut g = f.clone();
+                        g.terms[k].obsolete = true;
+                        g.terms[(k + 1) % n].replacement = Some(g.terms[k].id);
+                        via_binary(ctx, &g, &EncOpts::v(3), "one term flagged obsolete, the next one replaced by it");
+                        if n <= 3 {
+                            via_jax(ctx, &g, &JaxOpts::default(), false, "one term flagged obsolete, the next one replaced by it");
+                        }
+                    }
                 }
                 if n <= 3 {
                     via_jax(ctx, &f, &JaxOpts::default(), false, "canonical");
